@@ -68,7 +68,13 @@ def gen_spec(rng, with_ed, names, cols_l, cols_r):
     else:
         spec['t'] = gens.threshold(rng)[1]
         spec['op'] = rng.choice(['>=', '>', '='])
+    # the documented measure names are case-insensitive for the filters
+    spec['spelling'] = rng.choice([0, 0, 1, 2])
     return spec
+
+
+def spell(m, how):
+    return m if how == 0 else (m.lower() if how == 1 else m.capitalize())
 
 
 def make_filter(spec, tok):
@@ -77,7 +83,8 @@ def make_filter(spec, tok):
         return ssj.OverlapFilter(tok, spec['t'] if isinstance(spec['t'], int) else 1, spec['op'] if spec['op'] in ('>=', '>', '=') else '>=',
                                  spec['allow_missing'])
     cls = getattr(ssj, spec['filter'])
-    return cls(tok, spec['measure'], spec['t'], spec['allow_empty'], spec['allow_missing'])
+    return cls(tok, spell(spec['measure'], spec.get('spelling', 0)), spec['t'], spec['allow_empty'],
+               spec['allow_missing'])
 
 
 def run_spec(spec, L, R, names, tok):
@@ -204,7 +211,7 @@ def invalid_call(rng, target, kind_inv):
     ed = ed or (target[0] != 'join' and m == 'EDIT_DISTANCE')
     kind, tok, L, R = base_context(rng, ed)
     a = dict(L=L, R=R, lkey='id', rkey='id', lattr='s', rattr='s', tok=tok, l_out=None, r_out=None,
-             measure=m)
+             measure=m, spelling=rng.choice([0, 0, 1, 2]))
     if m in ('OVERLAP',):
         a['t'], a['op'] = 1, '>='
     elif m == 'EDIT_DISTANCE':
@@ -283,7 +290,7 @@ def invalid_call(rng, target, kind_inv):
         cls = getattr(ssj, target[1])
         if target[1] == 'OverlapFilter':
             return cls(a['tok'] if tk is None else tk, a['t'], a['op'])
-        return cls(a['tok'] if tk is None else tk, a['measure'], a['t'])
+        return cls(a['tok'] if tk is None else tk, spell(a['measure'], a['spelling']), a['t'])
 
     def cand():
         return pd.DataFrame({'_id': [0], 'l_k': [L['id'].iloc[0] if isinstance(a['L'], pd.DataFrame) and len(L) else 1],
